@@ -1508,6 +1508,11 @@ def run_C16(ctx):
     for bodied, ln in ((True, 20), (False, 12)):
         for cut in range(0, ln + 1):
             cases.append(dict(shutdown=True, serve=True, cut=cut, bodied=bodied))
+    # the daemon object dropped while its connection is still up (no shutdown request, no wait), with eventfd- and pipe-backed
+    # exit events (case id parity): its threads must go away and the peer must see end-of-stream
+    for sent in ("nothing", "part", "trip"):
+        for _ in range(4):
+            cases.append(dict(shutdown=True, dropconn=True, sent=sent))
     cases = replay_or(ctx, "daemon", cases)
     tr = ctx.harness("daemon", cases, shards=12)
     viol = ctx.tlc_tv("TV_Daemon", tr, "daemon", chunk_events=10000)
@@ -1518,7 +1523,7 @@ def run_C16(ctx):
             cur = [e.get("callers"), e.get("peer"), e.get("peer_closes"), []]
         elif e["ev"] == "cmd":
             cur[3].append((e["c"], e["a"]))
-        elif e["ev"] in ("end", "serve"):
+        elif e["ev"] in ("end", "serve", "dropconn"):
             ctx.evaluations += 1
             ctx.distinct.add((cur[0], cur[1], cur[2], tuple(cur[3]), e.get("wait", e.get("res")), e.get("cut")))
     ctx.sample(tr, 1, skip=0)
